@@ -44,12 +44,55 @@ BRefs == << [t |-> "R3", f |-> TRUE,  c |-> 2, n |-> "TVar"],
 SynNodeIds  == {"A", "B", "E"}
 SynNodeRefs == [nd \in SynNodeIds |-> CASE nd = "A" -> ARefs [] nd = "B" -> BRefs [] OTHER -> <<>>]
 SynGhosts   == {"ghost", "ghostns"}            \* unknown node in a known namespace / unknown namespace
-SynQueryTypes == {"R0", "R1", "R2", "R3", "R4", "RU", HS}
+SynQueryTypes == {"R0", "R1", "R2", "R3", "R4", "R5", "RU", HS}      \* R5 exists from phase 1 on
 SynClassBits  == {1, 2, 4, 8}
 
-SpaceRow == [kind |-> "space",
-             types |-> [t \in SynTypeIds |-> SynChildSeq[t]],
-             nodes |-> SynNodeRefs,
+---------------------------------------------------------------------------
+(***************************************************************************)
+(* The address space changes while the server runs (server API: AddNode,   *)
+(* Node.AddRef).  AddSubtype / AddRef are the specification's actions for  *)
+(* that; phase p is the space after the first p groups of additions.  A    *)
+(* browse in phase p must reflect the node's references and the reference  *)
+(* type hierarchy *at that time* (the same queries are asked in every      *)
+(* phase, so anything the server remembered from an earlier phase is       *)
+(* stale).  The contract and the filter loop are checked by TLC on every   *)
+(* phase's space; the harness applies the additions of the SPACE row of    *)
+(* phase p through the server API before replaying the rows of phase p.    *)
+(***************************************************************************)
+CONSTANT Phase
+
+Space0 == [types |-> SynTypeIds, child |-> SynChildSeq, refs |-> SynNodeRefs]
+AddSubtype(sp, parent, child) ==
+   LET ts == sp.types \cup {child}
+   IN [types |-> ts,
+       child |-> [t \in ts |-> IF t = parent THEN Append(sp.child[parent], child)
+                               ELSE IF t \in sp.types THEN sp.child[t] ELSE <<>>],
+       refs  |-> sp.refs]
+AddRef(sp, nd, r) == [sp EXCEPT !.refs[nd] = Append(@, r)]
+
+NoRef == [t |-> "", f |-> TRUE, c |-> 0, n |-> ""]
+Sub(parent, child) == [kind |-> "subtype", parent |-> parent, child |-> child, node |-> "", ref |-> NoRef]
+Ref(nd, r)         == [kind |-> "ref", parent |-> "", child |-> "", node |-> nd, ref |-> r]
+Adds == << \* phase 1: a new reference type R5 below R1 (R0 > R1 > R5) and a first reference of that type
+           << Sub("R1", "R5"),
+              Ref("B", [t |-> "R5", f |-> TRUE, c |-> 1, n |-> "TObj"]) >>,
+           \* phase 2: the existing type R4 becomes a subtype of R2; E gets its first reference; A one of type R5
+           << Sub("R2", "R4"),
+              Ref("E", [t |-> "R3", f |-> TRUE, c |-> 2, n |-> "TVar"]),
+              Ref("A", [t |-> "R5", f |-> FALSE, c |-> 4, n |-> "TMeth"]) >> >>
+Apply(sp, a) == IF a.kind = "subtype" THEN AddSubtype(sp, a.parent, a.child) ELSE AddRef(sp, a.node, a.ref)
+RECURSIVE ApplyAll(_, _)
+ApplyAll(sp, as) == IF as = <<>> THEN sp ELSE ApplyAll(Apply(sp, Head(as)), Tail(as))
+RECURSIVE SpaceAt(_)
+SpaceAt(p) == IF p = 0 THEN Space0 ELSE ApplyAll(SpaceAt(p - 1), Adds[p])
+PhTypeIds  == SpaceAt(Phase).types
+PhChildSeq == SpaceAt(Phase).child
+PhNodeRefs == SpaceAt(Phase).refs
+
+SpaceRow == [kind |-> "space", phase |-> Phase,
+             adds |-> IF Phase = 0 THEN <<>> ELSE Adds[Phase],
+             types |-> [t \in PhTypeIds |-> PhChildSeq[t]],
+             nodes |-> PhNodeRefs,
              targets |-> [c \in {1, 2, 4} |-> Target(c)]]
 ASSUME Emit => PrintT("ROW " \o ToJson(SpaceRow))
 =============================================================================
